@@ -86,5 +86,5 @@ func checkRecordedHandlerType(c *Ctx, p *Prog, R *BusRoles, rule string) {
 			c.Check(ok, rule, construct, pos, "handlerType = reflect.TypeOf(the stored handler)", "the registration records a handler type that is not the stored handler's type ("+why+"): the panic handler is told the wrong type and the reflective dispatch fallback calls the handler with the wrong number of arguments")
 		}
 	}
-	c.Floor(rule, "registrations recording a handler type", n, 2)
+	c.Floor(rule, "registrations recording a handler type", n, 1)
 }
